@@ -1,6 +1,6 @@
 SPECIFICATION Spec
 CONSTANTS
-  Sizes = {600, 40000}
+  Sizes = {1, 600, 40000}
   MaxChunks = 2
   Deltas = {0, 1, 2}
   Nets = {"perfect", "mix"}
